@@ -8,11 +8,28 @@ import numpy as np
 from .. import gen, impl, oracle, progs, ser, stream
 
 ID = "C05"
-LEVEL = "translation_validation"
-PROPS_MODULE = None
-THEOREMS = []
-LEAN_FILES = []
-PLANNED = ["fuse_elem", "unfuse_fuse", "fuseInsert_eq_fuseConcat"]
+LEVEL = "proof"
+PROPS_MODULE = "SymmModel.Props.C05"
+THEOREMS = [
+    "SymmModel.C05.calcFuseGroupInfo_perm",
+    "SymmModel.C05.fuseA_eq_fuseCore",
+    "SymmModel.C05.fused_charge_spec",
+    "SymmModel.C05.fused_dual_spec",
+    "SymmModel.C05.fused_size_spec",
+    "SymmModel.C05.table_wf",
+    "SymmModel.C05.extents_sorted",
+    "SymmModel.C05.splitOffset_joinOffset_inverse",
+    "SymmModel.C05.extentStart?_spec",
+    "SymmModel.C05.splitAddr_joinAddr_inverse",
+    "SymmModel.C05.splitAddr_injective",
+    "SymmModel.C05.unfuse_fuse_blocks_partial",
+    "SymmModel.C05.unfuseAll_fuse_blocks_partial",
+    "SymmModel.C05.fuseInsert_eq_fuseConcat_partial",
+    "SymmModel.C05.fuse_elem_partial",
+    "SymmModel.C05.fuse_elem_onto_partial"
+]
+LEAN_FILES = ["SymmModel.Props.C05", "SymmModel.Proofs.FuseLemmas", "SymmModel.Proofs.FuseBase", "SymmModel.Proofs.FuseAssoc", "SymmModel.Proofs.FuseTable", "SymmModel.Proofs.FusePlan", "SymmModel.Proofs.FuseWf", "SymmModel.Proofs.FuseSpec", "SymmModel.Proofs.FuseAddr", "SymmModel.Proofs.FuseIns", "SymmModel.Proofs.FuseOne", "SymmModel.Proofs.FuseInsert", "SymmModel.Proofs.FuseSem", "SymmModel.Proofs.FuseUnfuse", "SymmModel.Proofs.FuseRound", "SymmModel.Proofs.FuseAll", "SymmModel.Proofs.FuseElem", "SymmModel.Proofs.FuseConcat", "SymmModel.Proofs.FuseConcat2", "SymmModel.Proofs.FuseConcat3"]
+PLANNED = ["fuse_elem (several groups / single-axis groups beside a multi-axis group)", "unfuse_fuse (several groups)", "fuseInsert_eq_fuseConcat (several groups)", "fuseF_elem / unfuseF_fuseF (fermionic signs)", "fuse_cache_irrelevant (via C15)"]
 RULE = ("random abelian and fermionic arrays (all symmetries, sparse, pending signs, odd charge), one or more "
         "disjoint ordered axis groups (single-axis, non-adjacent, permuted, empty, second-level fusing of already "
         "fused axes), strategies insert/concat; compared with the Lean model (value view + sub-index tables), and on "
